@@ -66,33 +66,38 @@ def add_markers(prog):
 
 
 def form_table(prog):
-    """The top-level forms in file order: {k: "f"|"t", i: 1-based index into funs/top, defs: [...], uses: [...]}.
-    `uses` are the global variables *read* and the functions called anywhere in the form (a name that is only
-    assigned is not a use: an assignment to an unknown name declares it)."""
+    """The top-level forms in file order: {k: "f"|"t", i: 1-based index into funs/top, defs, uses, asg}.
+    `uses` are the global variables *read* and the functions called anywhere in the form, `asg` the global variables
+    assigned in it (an assignment to an unknown name declares it: Repl.tla offers a form as `entered too early' only
+    if it reads an undefined name that it does not assign itself)."""
     gnames = set(t["x"] for t in prog["top"] if t["d"] == "var")
     order = prog.get("order") or ([["f", i] for i in range(len(prog["funs"]))] + [["t", i] for i in range(len(prog["top"]))])
     out = []
     for kind, i in order:
         uses = set()
 
+        assigned = set()
+
         def f(x):
             if x.get("e") == "var" and x["x"] in gnames:
                 uses.add(x["x"])
+            if x.get("e") == "asg":
+                assigned.add(x["x"])
             if x.get("e") == "call":
                 uses.add(prog["funs"][x["fi"] - 1]["name"])
         if kind == "f":
             fn = prog["funs"][i]
             _walk(fn["body"], f)
             uses.discard(fn["name"])
-            out.append({"k": "f", "i": i + 1, "defs": [fn["name"]], "uses": sorted(uses)})
+            out.append({"k": "f", "i": i + 1, "defs": [fn["name"]], "uses": sorted(uses), "asg": sorted(assigned & gnames)})
         else:
             t = prog["top"][i]
             if t["d"] == "var":
                 _walk(t["init"], f)
-                out.append({"k": "t", "i": i + 1, "defs": [t["x"]], "uses": sorted(uses)})
+                out.append({"k": "t", "i": i + 1, "defs": [t["x"]], "uses": sorted(uses), "asg": sorted(assigned & gnames)})
             else:
                 _walk(t["x"], f)
-                out.append({"k": "t", "i": i + 1, "defs": [], "uses": sorted(uses)})
+                out.append({"k": "t", "i": i + 1, "defs": [], "uses": sorted(uses), "asg": sorted(assigned & gnames)})
     return out
 
 
@@ -253,18 +258,21 @@ _ERR = re.compile(r"\((Fatal )?Error\)")
 def loop_tokens(stdout):
     """Project the loop's standard output on what the property speaks about:
        ("M", line)  a line printed by the program (marker prefix), in order
-       ("G",)       one group of diagnostics with at least one error = one rejected step
+       ("G",)       one rejected step: a batch of diagnostics with at least one error.  The messages of one step are
+                    numbered from 1 (and listed in source order), so between two other tokens there are as many
+                    rejected steps as messages numbered 1
        ("T",)       the loop's own `step evaluated' line (timings), when it prints them
     Only the part between the READY and END sentinels is returned, plus flags."""
     toks = []
     flags = {"ready": False, "end": False, "bad": False, "fault": False, "timing": False}
-    group_open = False     # inside a diagnostic group
+    gap = {"n1": 0, "nerr": 0}
     skip_t = False
-    group_err = False
 
     def close():
-        if flags["ready"] and not flags["end"] and group_open and group_err:
-            toks.append(("G",))
+        if flags["ready"] and not flags["end"] and gap["nerr"] > 0:
+            for _ in range(max(1, gap["n1"])):
+                toks.append(("G",))
+        gap["n1"] = gap["nerr"] = 0
     for line in stdout.split("\n"):
         if "Program fault" in line or "Bug:" in line or "Unhandled Exception" in line:
             flags["fault"] = True
@@ -273,7 +281,6 @@ def loop_tokens(stdout):
         i = line.find(MARK.rstrip())
         if i >= 0 and (line[i:].startswith(READY) or line[i:].startswith(END)):
             close()
-            group_open = group_err = False
             if line[i:].startswith(READY):
                 flags["ready"] = True
                 del toks[:]
@@ -285,7 +292,6 @@ def loop_tokens(stdout):
             continue
         if _TIMING.match(line):
             close()
-            group_open = group_err = False
             flags["timing"] = True
             if skip_t:
                 skip_t = False
@@ -293,17 +299,13 @@ def loop_tokens(stdout):
                 toks.append(("T",))
             continue
         if _GROUP1.search(line):
-            close()
-            group_open, group_err = True, False
+            gap["n1"] += 1
         if _ERR.search(line):
-            if not group_open:
-                group_open = True
-            group_err = True
+            gap["nerr"] += 1
             continue
         j = line.find(MARK)
         if j >= 0:
             close()
-            group_open = group_err = False
             toks.append(("M", line[j:]))
     close()
     return toks, flags
@@ -339,7 +341,7 @@ def history_shapes(prog, hist):
 
     def declares(it):
         if it["k"] == "pre":
-            return bool(prog["forms"][it["j"] - 1]["defs"])
+            return True        # any form of the program may declare names (definitions, implicit declarations by assignment)
         if it["k"] == "bad":
             e = prog["cat"][it["j"] - 1]
             return e["c"] in ("vartype", "rettype", "noexport")
@@ -352,10 +354,16 @@ def history_shapes(prog, hist):
             shapes.add("two-rejected-adjacent")
             if declares(a) and presco(b):
                 shapes.add("declaring-error-then-parse-error")
+    entered = set()
     for it in hist:
-        if it["k"] == "bad":
+        if it["k"] == "ok":
+            entered.add(it["j"])
+        elif it["k"] == "bad":
             e = prog["cat"][it["j"] - 1]
             shapes.add("bad:" + e["c"] + ("+shadow" if e.get("sh") else ""))
+            if e.get("sh") and e["sh"] in entered:
+                shapes.add("redeclares-defined-name")
         elif it["k"] == "pre":
-            shapes.add("pre:" + ("def" if prog["forms"][it["j"] - 1]["defs"] else "stmt"))
+            fm = prog["forms"][it["j"] - 1]
+            shapes.add("pre:" + ("fun" if fm["k"] == "f" else ("var" if fm["defs"] else "stmt")))
     return sorted(shapes)
